@@ -1,6 +1,7 @@
 package main
 
 import (
+	"sort"
 	"fmt"
 	"os"
 	"path/filepath"
@@ -18,6 +19,38 @@ func main() {
 	switch os.Args[1] {
 	case "vf":
 		vf(os.Args[2:])
+	case "fields":
+		// govc fields <dir> <modprefix>: "//@ fields pkg.Struct a, b, c" for every named struct of the module
+		p, err := eng.Load(os.Args[2], os.Args[3], nil, "./...")
+		if err != nil {
+			fmt.Fprintln(os.Stderr, err)
+			os.Exit(2)
+		}
+		sf := eng.StructFields(p)
+		var ks []string
+		for k := range sf {
+			ks = append(ks, k)
+		}
+		sort.Strings(ks)
+		for _, k := range ks {
+			fmt.Printf("//@ fields %s %s\n", k, strings.Join(sf[k], ", "))
+		}
+	case "sigs":
+		// govc sigs <dir> <modprefix>: "//@ sig key signature" for every function of the module
+		p, err := eng.Load(os.Args[2], os.Args[3], nil, "./...")
+		if err != nil {
+			fmt.Fprintln(os.Stderr, err)
+			os.Exit(2)
+		}
+		sg := eng.FuncSigs(p)
+		var ks []string
+		for k := range sg {
+			ks = append(ks, k)
+		}
+		sort.Strings(ks)
+		for _, k := range ks {
+			fmt.Printf("//@ sig %s %s\n", k, sg[k])
+		}
 	case "params":
 		// govc params <dir> <modprefix>: "key(recv, a, b)" for every function of the module that has a contract
 		p, err := eng.Load(os.Args[2], os.Args[3], nil, "./...")
